@@ -57,9 +57,10 @@ func (c17) Runs(env *kernel.Env) int {
 var dirNames = [][]string{
 	{"pa1", "pa2"}, {"inner", "inner2"}, {"a", "ab"}, {"a", "a/b", "ab"}, {"model", "models"}, {"x", "y"},
 	{"api", "api/v1", "api/v10"}, {"srv", "srv/internal/db", "srv2"}, {"p", "pq", "pqr"}, {"data", "data_test"},
+	{"models", "Models"}, {"api", "API", "Api"}, {"api/v1", "apiclient", "api"},
 }
 
-var faults = []string{"missing", "not_go", "type_error_root", "type_error_import", "dir_for_file", "dangling_symlink", "go_unavailable", "empty_go_file",
+var faults = []string{"missing", "not_go", "type_error_root", "type_error_import", "type_error_import", "type_error_import_body", "type_error_import_body", "dir_for_file", "dangling_symlink", "go_unavailable", "empty_go_file",
 	"syntax_error_root", "import_of_missing_package", "no_go_mod"}
 
 // faults after which the property does not promise an error (only: no crash)
@@ -106,6 +107,7 @@ func (c17) Generate(env *kernel.Env, r *kernel.Rand, index int) any {
 	if len(dirs) > 6 {
 		dirs = dirs[:6]
 	}
+	sameNames := r.Chance(1, 3) // every package uses the same file names
 	for i, d := range dirs {
 		name := "root"
 		if d != "" {
@@ -114,10 +116,20 @@ func (c17) Generate(env *kernel.Env, r *kernel.Rand, index int) any {
 		ps := pkgSpec{Dir: d, Name: name}
 		nf := r.Range(1, 3)
 		for j := 0; j < nf; j++ {
-			ps.Files = append(ps.Files, fmt.Sprintf("%s%d.go", kernel.Pick(r, []string{"f", "types", "x", "defs"}), j))
+			prefix := kernel.Pick(r, []string{"f", "types", "x", "defs"})
+			if sameNames {
+				prefix = "types"
+			}
+			ps.Files = append(ps.Files, fmt.Sprintf("%s%d.go", prefix, j))
 		}
 		for j := 0; j < i; j++ {
-			if r.Chance(1, 3) && !strings.Contains(dirs[j], "internal") {
+			caseTwin := false
+			for k2, d2 := range dirs {
+				if k2 != j && strings.EqualFold(d2, dirs[j]) {
+					caseTwin = true // (Go refuses two imports that differ only by case in one build)
+				}
+			}
+			if r.Chance(1, 2) && !strings.Contains(dirs[j], "internal") && !caseTwin {
 				// (Go's internal rule would make the import illegal)
 				ps.Imports = append(ps.Imports, j)
 			}
@@ -126,6 +138,9 @@ func (c17) Generate(env *kernel.Env, r *kernel.Rand, index int) any {
 	}
 	// arguments
 	na := r.Range(1, 5)
+	if r.Chance(1, 40) {
+		na = 0 // the empty set: nothing to load, but still no crash
+	}
 	// bias: files from two different colliding directories
 	for i := 0; i < na; i++ {
 		pi := r.Intn(len(p.Pkgs))
@@ -135,6 +150,9 @@ func (c17) Generate(env *kernel.Env, r *kernel.Rand, index int) any {
 	}
 	if r.Chance(1, 5) && len(p.Args) > 1 {
 		p.Args[len(p.Args)-1] = p.Args[0] // duplicate
+	}
+	if na == 0 {
+		return p
 	}
 	switch r.Intn(6) {
 	case 0, 1:
@@ -278,8 +296,9 @@ func (c17) Execute(env *kernel.Env, raw json.RawMessage, ch *kernel.Choices) *ke
 		absFiles = append(absFiles, abs)
 		args = append(args, spelled)
 	}
-	if len(args) == 0 {
-		return out
+	emptySet := len(p.Args) == 0
+	if len(args) == 0 && !emptySet {
+		return out // shrunk away
 	}
 	pkgOfArg := func(k int) int {
 		n := -1
@@ -298,8 +317,39 @@ func (c17) Execute(env *kernel.Env, raw json.RawMessage, ch *kernel.Choices) *ke
 	// fault injection into the environment
 	fault := p.Fault
 	savedPath := os.Getenv("PATH")
+	if emptySet {
+		fault = ""
+	}
 	if fault != "" {
 		k := p.FaultA % len(args)
+		if strings.HasPrefix(fault, "type_error_import") {
+			// choose an argument whose package imports another one, preferably
+			// one whose dependency is not itself among the arguments
+			best := -1
+			for off := 0; off < len(args); off++ {
+				kk := (k + off) % len(args)
+				pk := pkgOfArg(kk)
+				if pk < 0 || len(p.Pkgs[pk].Imports) == 0 {
+					continue
+				}
+				if best < 0 {
+					best = kk
+				}
+				depListed := false
+				for j := range args {
+					if pkgOfArg(j) == p.Pkgs[pk].Imports[0] {
+						depListed = true
+					}
+				}
+				if !depListed {
+					best = kk
+					break
+				}
+			}
+			if best >= 0 {
+				k = best
+			}
+		}
 		target := absFiles[k]
 		tpkg := pkgOfArg(k)
 		switch fault {
@@ -320,6 +370,15 @@ func (c17) Execute(env *kernel.Env, raw json.RawMessage, ch *kernel.Choices) *ke
 			}
 			dep := p.Pkgs[tpkg].Imports[0]
 			must(os.WriteFile(filepath.Join(modRoot, filepath.FromSlash(p.Pkgs[dep].Dir), "zz_broken.go"), []byte(fmt.Sprintf("package %s\n\nvar broken int = \"not an int\"\n", p.Pkgs[dep].Name)), 0o644))
+		case "type_error_import_body":
+			// the error sits inside a function body of the imported package:
+			// its exported declarations stay intact
+			if len(p.Pkgs[tpkg].Imports) == 0 {
+				fault = ""
+				break
+			}
+			dep := p.Pkgs[tpkg].Imports[0]
+			must(os.WriteFile(filepath.Join(modRoot, filepath.FromSlash(p.Pkgs[dep].Dir), "zz_broken.go"), []byte(fmt.Sprintf("package %s\n\nfunc brokenBody() int {\n\tvar s string = 3\n\treturn s\n}\n", p.Pkgs[dep].Name)), 0o644))
 		case "dir_for_file":
 			args[k] = filepath.Dir(target)
 			absFiles[k] = filepath.Dir(target)
@@ -390,7 +449,15 @@ func (c17) Execute(env *kernel.Env, raw json.RawMessage, ch *kernel.Choices) *ke
 		return out
 	}
 	if panicked != nil {
+		if emptySet {
+			return viol("load_panics", "empty file set", "LoadSources panicked on an empty file set: %v", panicked)
+		}
 		return viol("load_panics", "fault="+fault, "LoadSources panicked: %v", panicked)
+	}
+	if emptySet {
+		// nothing to map: an error or an empty result are both fine
+		out.Probe("empty_file_set_ok")
+		return out
 	}
 	if fault != "" {
 		if err == nil && !onlyNoPanic[fault] {
